@@ -28,6 +28,8 @@ class UnitResult:
         self.out_path = ''
         self.verified = 0
         self.n_errors = 0
+        self.resource_fns = []
+        self.partial = []          # reasons why some functions / variants are undecided although others are decided
 
 
 def scan_trusted(gen):
@@ -130,7 +132,7 @@ def run_variant(template_path, repo_root, workdir, rlimit=60, extra_args=None, m
     m_rl = re.search(r'^//@ rlimit (\d+)', open(template_path).read(), re.M)
     if m_rl:
         rlimit = max(rlimit, int(m_rl.group(1)))
-    cmd = [VERUS, out_path, '--output-json', '--time', '--multiple-errors', '30', '--rlimit', str(rlimit),
+    cmd = [VERUS, out_path, '--output-json', '--time', '--multiple-errors', '5', '--rlimit', str(rlimit),
            '--error-format=json', '--num-threads', str(threads)] + (extra_args or [])
     res.cmd = ' '.join(cmd)
     env = dict(os.environ)
@@ -234,17 +236,21 @@ def run_variant(template_path, repo_root, workdir, rlimit=60, extra_args=None, m
     COMPILE_HINT = ('cannot find', 'mismatched types', 'expected', 'unresolved', 'not supported', 'unsupported',
                     'no method named', 'no field', 'cannot be used', 'is not supported', 'The verifier does not yet support',
                     'borrow', 'trait bound', 'mode ', 'cannot call', 'syntax')
-    if any(any(r in e['message'].lower() for r in RESOURCE) for e in res.errors):
-        res.status, res.reason = 'inconclusive', 'solver resource limit: ' + '; '.join(
-            '%s in %s' % (e['message'], e['fn']) for e in res.errors if any(r in e['message'].lower() for r in RESOURCE))
-        return res
+    for e in res.errors:
+        if any(r in e['message'].lower() for r in RESOURCE):
+            e['resource'] = True   # undecided for that function, never a failure
+    res.resource_fns = sorted(set(str(e['fn']) for e in res.errors if e.get('resource')))
     if compile_error or (p.returncode != 0 and not res.functions):
         res.status = 'inconclusive'
         res.reason = 'verus front-end error (not a verification result): ' + '; '.join(
             (e['message'] + ' @ ' + ','.join(e['where'][:1])) for e in res.errors[:4]) or p.stderr[-400:]
         return res
-    failed_fns = [n for n, f in res.functions.items() if not f['success']]
-    if failed_fns or res.n_errors:
+    definite = [e for e in res.errors if not e.get('resource')]
+    if definite:
+        res.status = 'failed'
+    elif res.resource_fns:
+        res.status, res.reason = 'inconclusive', 'solver resource limit in ' + ', '.join(res.resource_fns)
+    elif [n for n, f in res.functions.items() if not f['success']] or res.n_errors:
         res.status = 'failed'
     return res
 
@@ -268,8 +274,16 @@ def run_unit(template_path, repo_root, workdir, rlimit=60, extra_args=None, muta
     for p in parts[1:]:
         if p.status != 'inconclusive' and not p.functions:
             p.status, p.reason = 'inconclusive', 'variant verified no function'
-        if p.status == 'inconclusive' and main.status != 'inconclusive':
-            main.status, main.reason = 'inconclusive', 'variant %s: %s' % (p.variant, p.reason)
+        if p.status == 'inconclusive':
+            main.partial.append('variant %s: %s' % (p.variant, p.reason))
+            if p.gen is None or not p.functions:
+                # extraction / front-end trouble: nothing of this variant can be used
+                if main.status != 'inconclusive':
+                    main.status, main.reason = 'inconclusive', 'variant %s: %s' % (p.variant, p.reason)
+                continue
+        for fn_ in p.resource_fns:
+            if fn_ not in main.resource_fns:
+                main.resource_fns.append(fn_)
         for k, v in p.functions.items():
             ent = main.functions.get(k)
             if ent is None:
